@@ -72,6 +72,7 @@ type Run struct {
 	Tracing   bool
 	progress  *atomic.Int64 // watchdog heartbeat (outside the bubble)
 	StopFirst bool
+	wake      chan struct{}
 	EndSim    time.Duration
 }
 
@@ -87,6 +88,7 @@ func NewRun(seed uint64, tape *Tape, heartbeat *atomic.Int64) *Run {
 		allSites: true,
 		start:    time.Now(),
 		progress: heartbeat,
+		wake:     make(chan struct{}, 1),
 	}
 	r.StopFirst = true
 	tape.Trace = func(label string, n, v int) {
@@ -178,7 +180,7 @@ func (r *Run) StateHashes() []uint64 {
 	return o
 }
 
-func (r *Run) SchedHash() uint64 { return r.sched }
+func (r *Run) SchedHash() uint64  { return r.sched }
 func (r *Run) MaxConcurrent() int { return r.maxConc }
 
 // NoteEnabled records how many actions were simultaneously possible.
@@ -213,6 +215,10 @@ func (r *Run) ParkWith(p *Parked) any {
 	p.arr = r.arr
 	r.parked = append(r.parked, p)
 	r.mu.Unlock()
+	select {
+	case r.wake <- struct{}{}:
+	default:
+	}
 	return <-p.ch
 }
 
@@ -343,8 +349,20 @@ func (r *Run) ChooseAction(acts []Action, label string) {
 
 // Advance moves the simulated clock forward by d (other goroutines whose
 // timers fall inside d run in timer order).
+//
+// The advance ends early as soon as any goroutine reaches a park point, so
+// that nothing waits for the scheduler while simulated time runs on.
 func (r *Run) Advance(d time.Duration) {
-	time.Sleep(d)
+	select {
+	case <-r.wake:
+	default:
+	}
+	t := time.NewTimer(d)
+	select {
+	case <-t.C:
+	case <-r.wake:
+		t.Stop()
+	}
 }
 
 // Task is a harness goroutine performing scripted operations.
